@@ -160,10 +160,16 @@ func (x *XObject) Count() int {
 // Get retrieves the named property
 func (x *XObject) Get(key string) (XValue, bool) {
 	key = strings.ToLower(key)
-	for p, v := range x.properties() {
-		if strings.ToLower(p) == key {
-			return v, true
+
+	// lookups are case-insensitive so several properties can match: always pick the same one (first A-Z)
+	match, found := "", false
+	for p := range x.properties() {
+		if strings.ToLower(p) == key && (!found || p < match) {
+			match, found = p, true
 		}
+	}
+	if found {
+		return x.properties()[match], true
 	}
 
 	return nil, false
